@@ -7,6 +7,9 @@ from vf.gen import dlms_gen
 from vf.mon import p1_mon
 
 
+_cases = 0
+
+
 def category(field: str) -> str:
     if field.startswith("current"):
         return "current"
@@ -91,6 +94,29 @@ def check_case(prop: str, case, ctx, extra_tag: str = "") -> bool:
             for label, got, expect in (("first", first, case.expect_frame), ("second", second, case.expect_frame), ("body-of-frame", inner, case.expect_body)):
                 for fld, problem in dlms_gen.compare_dict(got, expect):
                     ctx.violation(sig_for(prop, f"{prop}:two-step:{label}-normalisation-differs", problem), f"{case.vendor} {case.layout}: normalising the parsed object ({label}): {fld}: {problem}", wit)
+                    ok = False
+                    break
+    # the application's decimal context (precision, rounding) is not the library's business: every fifth case is decoded again under one
+    global _cases
+    _cases += 1
+    if _cases % 5 == 0:
+        import decimal
+
+        prec = (3, 6, 9, 4)[(_cases // 5) % 4]
+        with decimal.localcontext(decimal.Context(prec=prec, rounding=(decimal.ROUND_DOWN, decimal.ROUND_HALF_EVEN)[(_cases // 20) % 2])):
+            res3 = decode_both(case.vendor, case)
+        ctx.count("cases_decoded_again_under_a_low_precision_decimal_context")
+        for form, expect in (("body", case.expect_body), ("frame", case.expect_frame)):
+            got, ex = res3[form]
+            if res[form][1] is not None:
+                continue
+            if ex is not None:
+                ctx.violation(f"{prop}:{form}:depends-on-the-ambient-decimal-context", f"{case.vendor} {case.layout} {form}: raised {ex!r:.120} under decimal precision {prec} (decodes in the default context)", wit)
+                ok = False
+                continue
+            for fld, problem in dlms_gen.compare_dict(got, expect):
+                if not list(dlms_gen.compare_dict({fld: res[form][0].get(fld)} if isinstance(res[form][0], dict) and fld in res[form][0] else {}, {fld: expect[fld]} if fld in expect else {})):
+                    ctx.violation(f"{prop}:{form}:depends-on-the-ambient-decimal-context", f"{case.vendor} {case.layout} {form}: under decimal precision {prec}: {fld}: {problem} (right in the default context)", wit)
                     ok = False
                     break
     # frame vs body on every field except the clock
